@@ -561,32 +561,36 @@ def R4_input_plugins(ctx):
     ctx.check(okf, "json_array_flatten:object->kept, other->error", "an element of the plugin state is neither kept (JSON object, pushed once) nor turned into an error (anything else): a malformed query would vanish", fb.where(), detail="Object => push; other => error = Some(other)")
     # json_array_op: known weakness — the first failing sub-query ends the loop
     ob = F.need(IN + "json_array_op")
-    loops = ob.natural_loops()
-    if ctx.check(len(loops) == 1, "json_array_op:loop", "expected one loop over the sub-queries", ob.where()):
-        rows = iteration_table(ob, loops[0][0])
-        early = [r for r in rows if r.kind == "return" and not any(l_ == "None" for d_, l_, _ in r.conds if d_[0] == "discr")]
-        backs = [r for r in rows if r.kind == "back"]
-        okb = len(backs) >= 1
-        for r in backs:
-            calls = [v for _, v in r.calls if v[0] == "callind" or v[0] == "call" and ("Fn" in v[1] and "::call" in v[1])]
-            okb = okb and len(calls) == 1
-        ctx.check(okb, "json_array_op:op-applied-to-every-sub-query", "the plugin operation is not applied once to every sub-query", ob.where(), detail="for q in queries: op(q)")
+    # the semantic reading shared with C17.R2 (loop with `?`, explicit return, or try_for_each): op on every sub-query, a
+    # failure packaged with the sub-query it belongs to
+    import importlib
+    c17 = importlib.import_module("props.C17")
+
+    class _Sh:
+        def __init__(self):
+            self.F = F
+            self.res = {}
+
+        def check(self, ok, inst, msg, where=None, detail=None, rule=None):
+            self.res[inst] = (bool(ok), msg)
+            return ok
+
+    sh = _Sh()
+    c17._json_array_op(sh, F)
+    r1 = sh.res.get("op-on-every-query", (False, "not evaluated"))
+    r2 = sh.res.get("failure=>packaged-with-its-query", (False, "not evaluated"))
+    ctx.check(r1[0], "json_array_op:op-applied-to-every-sub-query", "the plugin operation is not applied once to every sub-query: %s" % r1[1][:160], ob.where(), detail="for q in queries: op(q)")
+    ctx.check(r2[0], "json_array_op:sub-query-error-carries-that-sub-query", "an error exit does not package the failing sub-query", ob.where(), detail="package_error(q, e)")
+    if True:
+        # does the first failing sub-query end the pass over its siblings?
+        loops = ob.natural_loops()
         otm = Terms(ob)
-        for r in early:
-            pe = False
-            # explicit spelling: `if let Err(e) = op(q) { return Err(package_error(q, e)) }`
-            rv_ = nosite(deep_strip(r.ret))
-            nxs_ = [nosite(deep_strip(v)) for _, k, v in r.sites if k and itm(k, "next")]
-            for x in subterms(rv_):
-                if x[0] == "call" and x[1].startswith(IN + "package_error") and nxs_ and unmut_all(x[2][0]) == unmut_all(nxs_[0]):
-                    pe = True
-            for c in ob.calls():
-                if (c.callee or "").endswith("Result::<T, E>::map_err"):
-                    cl = nosite(deep_strip(otm.operand(c.args[1], c.bb)))
-                    if cl[0] == "closure" and len(cl[2]) == 1 and cl[2][0][0] == "call" and itm(cl[2][0][1], "next"):
-                        crt = nosite(deep_strip(Terms(F.need(cl[1])).return_term()))
-                        pe = crt[0] == "call" and crt[1].startswith(IN + "package_error") and crt[2][0] == ("field", ("arg", 1), "0")
-            ctx.check(pe, "json_array_op:sub-query-error-carries-that-sub-query", "an error exit does not package the failing sub-query", ob.where(), detail="package_error(q, e)")
+        if loops:
+            rows = iteration_table(ob, loops[0][0])
+            early = [r for r in rows if r.kind == "return" and not any(l_ == "None" for d_, l_, _ in r.conds if d_[0] == "discr")]
+        else:
+            # try_for_each stops at the first Err by definition
+            early = [c for c in ob.calls() if c.callee and (itm(c.callee, "try_for_each") or itm(c.callee, "try_fold"))]
         ctx.check(not early, "apply_input_plugins:sub-query-error-aborts-siblings", "json_array_op leaves the loop over the expanded sub-queries at the first failing one (`op(q).map_err(package_error)?`): the siblings that grid search produced from the same user query get no response at all (3 expanded queries, 1 failing => 1 response)", ob.where(), detail="all sub-queries answered")
 
 
